@@ -259,6 +259,9 @@ func GenDialogue(g *vh.Gen, c Cfg, pool []string, o Opts) []byte {
 		line("cGFzcw==")
 	}
 	ntx := 1 + g.Intn(4)
+	if g.Chance(0.04) {
+		ntx = 9 + g.Intn(30) // a long-lived connection: whatever a session accumulates shows only after many transactions
+	}
 	for t := 0; t < ntx; t++ {
 		garbage()
 		from := genAddr(g, pool)
@@ -278,6 +281,9 @@ func GenDialogue(g *vh.Gen, c Cfg, pool []string, o Opts) []byte {
 		line(mail)
 		garbage()
 		nr := g.Intn(5)
+		if g.Chance(0.03) {
+			nr = g.Pick2(8, 9, 16, 17, 33, 64) // recipient lists across the growth steps of a slice
+		}
 		var tos []string
 		for i := 0; i < nr; i++ {
 			a := genAddr(g, pool)
